@@ -10,7 +10,7 @@ fi
 D=/tmp/bld/$1
 mkdir -p $D
 git -C /repo worktree add --detach $D/repo HEAD >/dev/null
-rsync -a --exclude runs --exclude .git /verif/ $D/verif/
+rsync -a --exclude runs --exclude .git /verif/ $D/verif/ || [ $? -eq 24 ]
 sed -i "s#\"/repo/#\"$D/repo/#" $D/verif/harness/Cargo.toml
 sed -i "s#/verif/.cache/target#$D/verif/.cache/target#" $D/verif/harness/.cargo/config.toml
 echo "export EDP_REPO=$D/repo" > $D/env.sh
